@@ -17,7 +17,12 @@ ArmSeqs(u) ==
             fm \in {f \in [1..Len(s) -> {"bind", "ignore", "none"}] : \A i \in 1..Len(s) : f[i] \in Forms(u[s[i]].p, Len(u))}} :
          s \in OrderedSubsets(Len(u))}
 
-Configs == UNION {{[cases |-> u, arms |-> a, dflt |-> d] : a \in ArmSeqs(u), d \in BOOLEAN} : u \in Unions}
+\* arms with a REPEATED case: at least as many arms as cases and still a case omitted (counting arms decides nothing); without default
+RepeatSeqs(n) == UNION {{s \in [1..k -> 1..n] : {s[i] : i \in 1..k} # 1..n} : k \in n..(n + 1)}
+RepeatArmSeqs(u) == {[i \in 1..Len(s) |-> [c |-> u[s[i]].n, form |-> IF u[s[i]].p THEN "ignore" ELSE "none"]] : s \in RepeatSeqs(Len(u))}
+RepeatConfigs == UNION {{[cases |-> u, arms |-> a, dflt |-> FALSE] : a \in RepeatArmSeqs(u)} : u \in {v \in Unions : Len(v) \in 2..3}}
+
+Configs == UNION {{[cases |-> u, arms |-> a, dflt |-> d] : a \in ArmSeqs(u), d \in BOOLEAN} : u \in Unions} \cup RepeatConfigs
 
 \* R1: the marking procedure decides the property
 ASSUME \A c \in Configs : CheckerAccepts(c.cases, c.arms, c.dflt) = Declarative(c.cases, c.arms, c.dflt)
